@@ -87,7 +87,9 @@ ADVISORY_OBLIGATIONS = {
     'C04.R2c': ['*'],
     'C04.R4': ['bias scale must be derived from the parameters of'],
     'C04.R5': ['None.', 'flatbuffer_quantization.', 'the dimension may only be skipped', 'the dtype of the instruction', 'the parameters object must be attached', 'the quantized dimension is not written', 'the UniformQuantParams branch was not found'],
-    'C05.R4': ['buffer 0 (the shared empty buffer)', 'flatbuffer field ', 'the buffer must only be written when'],
+    'C05.R4': ['buffer 0 (the shared empty buffer)', 'flatbuffer field ', 'the buffer must only be written when',
+               # round 18 (r18-C05: the byte conversion moved into a helper `_to_flat_bytes`); the value is decided by C05.R13
+               'the stored bytes must be the precomputed'],
     'C05.R8': ['expected blockwise / plain paths', 'the result must be a UniformQuantParams', 'the returned params must carry', 'the content that is quantized must be'],
     'C08.R2': ['resolution must call the support check exactly once'],
     'C11.R4': ['resolution must call the support check exactly once'],
@@ -96,7 +98,9 @@ ADVISORY_OBLIGATIONS = {
     'C09.R10': _SEL,
     'C10.R2': _SEL,
     'C10.R1c': ['*'],
-    'C15.R3': ['buffer 0 (the shared empty buffer)', 'flatbuffer field ', 'the buffer must only be written when'],
+    'C15.R3': ['buffer 0 (the shared empty buffer)', 'flatbuffer field ', 'the buffer must only be written when',
+               # round 18 (r18-C05: the byte conversion moved into a helper `_to_flat_bytes`); the value is decided by C05.R13
+               'the stored bytes must be the precomputed'],
     'C19.R6': ['tensor/operator lists of another object', 'the new tensor must be added to', 'transformations must receive the model-wide'],
     # second set of refactorings (r15: C05, C12, C16, C17, C18, C19 files)
     'C04.R3': ['batch-matmul quantized dimension for adj_y'],
